@@ -6,6 +6,7 @@ import PandoraModel.Properties.C02KernelsMc
 import PandoraModel.Properties.C02KernelsMcCost
 import PandoraModel.Properties.C02KernelsMcArr
 import PandoraModel.Properties.C02KernelsMasked
+import PandoraModel.Properties.C02KernelsMaskedComp
 #print axioms Pandora.C02.popcount_source_eq_model
 #print axioms Pandora.C02.typeMeasure_source_eq_model
 #print axioms Pandora.C02.cmax_source_eq_model
@@ -125,3 +126,7 @@ import PandoraModel.Properties.C02KernelsMasked
 #print axioms Pandora.C02KernelsMasked.rightDilInput_eq
 #print axioms Pandora.C02KernelsMasked.leftMaskNan_eq
 #print axioms Pandora.C02KernelsMasked.rightMaskNan_eq
+#print axioms Pandora.C02KernelsMasked.genStep_eq
+#print axioms Pandora.C02KernelsMasked.cvMaskedFold_generated_eq
+#print axioms Pandora.C02KernelsMasked.genCvMaskedNan_eq
+#print axioms Pandora.C02KernelsMasked.generated_nan_iff_not_computable
